@@ -142,7 +142,23 @@ func (st *State) clone() *State {
 
 func (st *State) top() *Frame { return st.Frames[len(st.Frames)-1] }
 
-func (st *State) assume(t *Term) { st.PC = st.PC.push(t) }
+func (st *State) assume(t *Term) {
+	// split conjunctions (and implications of conjunctions) so that quantified conjuncts can be
+	// separated from quantifier-free ones
+	switch {
+	case t.Op == "and":
+		for _, a := range t.Args {
+			st.assume(a)
+		}
+		return
+	case t.Op == "=>" && t.Args[1].Op == "and":
+		for _, a := range t.Args[1].Args {
+			st.assume(Implies(t.Args[0], a))
+		}
+		return
+	}
+	st.PC = st.PC.push(t)
+}
 
 // assumeBranch records a control-flow decision (as opposed to a fact that always holds).
 func (st *State) assumeBranch(t *Term) {
@@ -253,6 +269,10 @@ type Obligation struct {
 	Inst    int
 	Trace   []string
 	Vacuity bool // a cover query: expected sat
+	ReplayArgs []TV
+	ReplayLen  []bool
+	ReplayFn   string
+	ReplayPkg  *types.Package
 }
 
 func posString(fset *token.FileSet, p token.Pos) string {
